@@ -139,16 +139,18 @@ StartKill(ms) ==   \* a crash during recovery
 (***************************************************************************)
 (* Requests in flight at a crash: every promise of B gets a request (a     *)
 (* routed creation if it does not exist, a completion if it is pending),   *)
-(* all sent at once together with `filler` further creations, and the      *)
-(* server is killed ms later.  Acknowledged ones have taken effect; of the *)
+(* all sent at once together with `filler` further creations (carrying      *)
+(* values of 100 kB when grow > 0: transactions larger than the page cache  *)
+(* of the store), and the server is killed ms later, or, when grow > 0, as  *)
+(* soon as the database file has grown by grow megabytes.  Acknowledged ones have taken effect; of the *)
 (* others nothing is known until the database is looked at: "maybe".       *)
 (***************************************************************************)
-Burst(B, ms, filler) ==
+Burst(B, ms, filler, grow) ==
   /\ up /\ B # {} /\ \A p \in B : ps[p] \in {"none", "pending"}
   /\ up' = FALSE
   /\ ps' = [p \in Promises |-> IF p \notin B THEN ps[p] ELSE IF ps[p] = "none" THEN "maybe-created" ELSE "maybe-completed"]
   /\ LET seq == SetToSeq(B) IN
-     Step([op |-> "burst", ms |-> ms, filler |-> filler, reqs |-> [k \in 1..Len(seq) |-> [p |-> seq[k], create |-> ps[seq[k]] = "none"]]])
+     Step([op |-> "burst", ms |-> ms, filler |-> filler, grow |-> grow, reqs |-> [k \in 1..Len(seq) |-> [p |-> seq[k], create |-> ps[seq[k]] = "none"]]])
   /\ UNCHANGED <<routed, subs, notified, ts, sched, fired, lock, short, aged>>
 
 \* Looking (reads through the API and rows of the database file) changes nothing.
@@ -164,7 +166,7 @@ Next ==
      \/ \E k \in {"yearly", "secondly"} : CreateS(k)
      \/ DeleteS \/ Acquire \/ Release \/ CreateShort \/ Wait
      \/ Kill \/ Term \/ Start \/ \E ms \in {0, 15, 60} : StartKill(ms)
-     \/ \E B \in SUBSET {p \in Promises : ps[p] \in {"none", "pending"}}, ms \in {0, 2, 6}, f \in {0, 24} : Burst(B, ms, f)
+     \/ \E B \in SUBSET {p \in Promises : ps[p] \in {"none", "pending"}}, ms \in {0, 2, 6}, f \in {0, 24}, g \in {0, 1} : Burst(B, ms, f, g)
 Spec == Init /\ [][Next]_vars
 
 (***************************************************************************)
